@@ -195,4 +195,43 @@ theorem determineNK_exact (d f : Idx) (hd : 0 < d.1 ∧ 0 < d.2.1 ∧ 0 < d.2.2)
   · unfold determineNK
     simp only [↓reduceIte]
 
+/-! ## T6 — which factorisations are accepted.
+    T2 (`weighted_sum_invariant`) needs nothing but the k-set: without symmetry reduction EVERY factorisation gives the
+    same integral.  The symmetry reduction of `get_K_list` (star of K taken in units of the K-grid) and the per-K
+    symmetrisation in run() additionally need that the K-grid `NKdiv` is symmetric on its own (then the images of grid
+    points are grid points again, `symmetric_grid_star_on_grid`), and the FFT sub-grid `NKFFT` likewise; a symmetric total
+    grid `NKdiv * NKFFT` does not imply either (`total_grid_symmetric_not_enough`).  The rule the check enforces is the
+    one of `determineNK`: `acceptNK` = every grid the caller specifies (NKdiv, NKFFT, NK) is symmetric on its own; a
+    factorisation must EITHER be refused OR give the reference result. -/
+
+theorem symmetric_grid_star_on_grid (syms : List Sym) (div : Idx) (hd : 0 < div.1 ∧ 0 < div.2.1 ∧ 0 < div.2.2)
+    (hs : symmetricGrid syms div = true) (s : Sym) (hsm : s ∈ syms) (p : Idx) :
+    isInt ((s.apply (gridK div p)).x * div.1) = true ∧ isInt ((s.apply (gridK div p)).y * div.2.1) = true ∧
+    isInt ((s.apply (gridK div p)).z * div.2.2) = true := by
+  unfold symmetricGrid at hs
+  rw [List.all_eq_true] at hs
+  have h := hs s hsm
+  simp only [Bool.and_eq_true, decide_eq_true_eq] at h
+  obtain ⟨⟨⟨⟨⟨⟨⟨⟨a11, a12⟩, a13⟩, a21⟩, a22⟩, a23⟩, a31⟩, a32⟩, a33⟩ := h
+  have hint : ∀ r : Rat, (∃ z : Int, r = z) → isInt r = true := by
+    rintro r ⟨z, rfl⟩; simp [isInt]
+  unfold Sym.apply gridK
+  simp only
+  refine ⟨hint _ ?_, hint _ ?_, hint _ ?_⟩
+  · exact comp_on_grid p.1 p.2.1 p.2.2 div.1 div.2.1 div.2.2 div.1 s.m11 s.m21 s.m31 s.sign (sign_pm s)
+      hd.1 hd.2.1 hd.2.2 a11 a21 a31
+  · exact comp_on_grid p.1 p.2.1 p.2.2 div.1 div.2.1 div.2.2 div.2.1 s.m12 s.m22 s.m32 s.sign (sign_pm s)
+      hd.1 hd.2.1 hd.2.2 a12 a22 a32
+  · exact comp_on_grid p.1 p.2.1 p.2.2 div.1 div.2.1 div.2.2 div.2.2 s.m13 s.m23 s.m33 s.sign (sign_pm s)
+      hd.1 hd.2.1 hd.2.2 a13 a23 a33
+
+/-- 4-fold rotation about z: the total grid 6x6x1 of NKdiv=(3,2,1) x NKFFT=(2,3,1) is symmetric, neither factor is, the
+    rule refuses the factorisation, and the image of K-grid point (1,0,0) is off the K-grid (2/3 of a step along y) -/
+theorem total_grid_symmetric_not_enough :
+    let c4 : Sym := ⟨0, 1, 0, -1, 0, 0, 0, 0, 1, false, false⟩
+    symmetricGrid [c4] (6, 6, 1) = true ∧ symmetricGrid [c4] (3, 2, 1) = false ∧ symmetricGrid [c4] (2, 3, 1) = false ∧
+    acceptNK [c4] (some (3, 2, 1)) (some (2, 3, 1)) none = false ∧ acceptNK [c4] (some (3, 3, 1)) (some (2, 2, 1)) none = true ∧
+    isInt ((c4.apply (gridK (3, 2, 1) (1, 0, 0))).y * 2) = false := by
+  decide +kernel
+
 end WB.C03
